@@ -334,6 +334,7 @@ def summarise(R, it):
     n0 = len(R.pc)
     n_trace = len(R.trace)
     n_fresh = R.fresh_n
+    saved_known = dict(R.known)
     R.summarising = getattr(R, 'summarising', 0) + 1
     try:
         if B.is_set(coll):
@@ -365,6 +366,7 @@ def summarise(R, it):
     finally:
         R.summarising -= 1
         del R.pc[n0:]
+        R.known = saved_known
     s.fresh_range = (n_fresh, R.fresh_n)
     return s
 
